@@ -323,6 +323,40 @@ def huge_offset_case():
     return out
 
 
+def many_fields_case():
+    """a header whose field-name section is far longer than any I/O buffer (hundreds of fields): the header-only
+    listing must still show every field"""
+    out = dict(evals=1, keys=[core.khash('many-fields')], dist={'case=460 fields': 1}, samples=[], violations=[], disagreements=[])
+    rng = random.Random(4242)
+    pf = gen.gen_deep_plotfile(rng, nlevels=1, ndims=3, nfields=1)
+    pf.fields = [f"Y(S{i:03d})" for i in range(300)] + [f"passive_scalar_number_{i:03d}" for i in range(160)]
+    for lev in pf.levels:
+        lev.data = [gen.gen_payload(rng, (2, 2, 2, len(pf.fields)), 'ints')]
+    path = os.path.join(core.scratch_dir('c18_many'), 'plt00020')
+    os.makedirs(os.path.dirname(path))
+    gen.write_plotfile(pf, path)
+    res = core.outcome(lambda: run_entry('amr_kitchen.menu.cli', ['menu', path]))
+    desc = dict(case='460 fields (300 species, 160 names unknown to the database)')
+    if res[0] != 'ok':
+        out['violations'].append(dict(desc, kind='listing-raised', what='menu (default listing) raised: ' + res[1]))
+        return out
+    listing = [t for l in (block(res[1], 'Fields found in file') or []) for t in l.split()]
+    species = [t for l in (block(res[1], 'Species found in file') or []) for t in l.split()]
+    want_list = sorted({classify(k) or k for k in pf.fields}, key=str.lower)
+    want_species = sorted(re.sub(r"\)$", '', re.sub(r"^Y\(", '', k)) for k in pf.fields if classify(k) == 'Y')
+    if sorted(listing) != sorted(want_list) or len(listing) != len(set(listing)):
+        out['violations'].append(dict(desc, kind='wrong-listing',
+                                      what=f"menu lists {len(listing)} entries; every header field exactly once means {len(want_list)} "
+                                           f"(missing e.g. {sorted(set(want_list) - set(listing))[:3]})"))
+    elif species != want_species:
+        out['violations'].append(dict(desc, kind='wrong-species', what=f"menu lists {len(species)} species instead of {len(want_species)}"))
+    return out
+
+
+def lambda_many(_):
+    return many_fields_case()
+
+
 def lambda_huge(_):
     return huge_offset_case()
 
@@ -340,6 +374,8 @@ def run(tier, seed):
     for r in core.run_cases(run_case, core.with_corpus(PID, cases)):
         rep.merge(r)
     for r in core.run_cases(lambda_huge, [0]):
+        rep.merge(r)
+    for r in core.run_cases(lambda_many, [0]):
         rep.merge(r)
     rep.obligation('correspondence: Menu.Menu (listing, species, extrema, table rows, minuterie) = parsed standard output of the entry points',
                    not any(v[0].get('kind') == 'model-vs-impl' for v in rep.violations))
